@@ -635,7 +635,7 @@ pub fn run(run: &mut Run) {
     run.bound("huge_sources", huge_bound());
     run.evaluations += h;
     run.transitions += h;
-    let sizes: Vec<usize> = (0..=max_n).chain(if run.quick() { (7usize..=130).chain([255, 256, 257]).collect::<Vec<usize>>() } else { (7usize..=300).chain([1000, 1009, 4096]).collect() }).collect();
+    let sizes: Vec<usize> = (0..=max_n).chain(if run.quick() { (7usize..=130).chain([255, 256, 257, 1000, 4097, 65537, 100_003]).collect::<Vec<usize>>() } else { (7usize..=300).chain([1000, 1009, 4096, 4097, 65536, 65537, 100_003, 1_000_003]).collect() }).collect();
     run.bound("collection_sizes", json!(sizes));
     // nested: a collection of `outer` collections of `inner` elements each, in generation order
     for outer in 0..=3usize {
